@@ -105,6 +105,12 @@ def run(ctx):
             for eb in (True, False):
                 cases.append({"fn": "gen", "name": "invert", "args": G.enc_args({"kappa": float(kappa), "epsilon": eps}), "ensure_bounded": eb,
                               "return_scale": eb, "chebyshev_basis": True, "timeout": 300})
+        # the object-returning path (return_coef=False) of cosine / sine / 1/x: the series object must be the scaled approximation too
+        for name, a in (("cos", {"tau": 7.0, "epsilon": 0.1}), ("sin", {"tau": 4.0, "epsilon": 1e-3}), ("cos", {"tau": 12.0, "epsilon": 1e-6}),
+                        ("invert", {"kappa": 3.0, "epsilon": 0.1})):
+            for eb in (True, False):
+                cases.append({"fn": "gen", "name": name, "args": G.enc_args(a), "ensure_bounded": eb, "return_scale": eb and name == "invert",
+                              "chebyshev_basis": rng.random() < 0.5, "return_coef": False, "timeout": 300})
         for name in G.ERF:
             for rep in range(2 if quick else 10):
                 deg = G.right_parity_degree(rng, name, 2, 60 if rep else 12)
@@ -149,6 +155,8 @@ def run(ctx):
             ctx.fail(site, c, "non-finite coefficients")
             continue
         arg = {k: (float.fromhex(v) if isinstance(v, str) else v) for k, v in c["args"].items()}
+        if c.get("return_coef") is False:
+            c = dict(c, chebyshev_basis=True)       # the object handed back is the Chebyshev series itself
         if name in ("cos", "sin"):
             scale = 0.5 if c["ensure_bounded"] else 1.0
             tau, eps = arg["tau"], arg["epsilon"]
